@@ -110,6 +110,19 @@ theorem C02_counterexample : ¬ C02_statement := by
   revert this
   decide +kernel
 
+/-- A second, independent way in which intermittent sources break the identity (finding F4c): the
+update that ends an emission is not seen by the intermittency toggle, so the day on which a leak is
+repaired is never counted as an emitting day.  Witness without any non-emitting day inside the
+horizon (3 on / 1 off, one simulated day, tagged on day 0, no delay): emitted 0 + mitigated 0, but the
+same leak emits 1 day without LDAR. -/
+theorem C02_counterexample_final_day :
+    let p : Params := { start := 0, nrd := 10, repairDelay := 0, repairable := true,
+                        intermittent := true, activeDur := 3, inactiveDur := 1 }
+    let ev : Nat → List TagEv := fun d => if d = 0 then [{ company := 1, trd := 0 }] else []
+    emitDays p (run p ev 1) + mitDays p (run p ev 1) (summaryEndArg 1) = 0 ∧
+    emitDays p (baseline p 1) = 1 ∧ (run p ev 1).status = .repaired := by
+  decide +kernel
+
 /-- program totals: summing the leak-wise identity over any list of persistent repairable leaks,
 each with its own tag schedule (volumes are these day counts times rate × 86.4) -/
 theorem C02_totals (ls : List (Params × (Nat → List TagEv))) (N : Nat)
